@@ -1013,6 +1013,14 @@ func resolverE2E(r *rng, n int, certDir string) error {
 
 // ---------- mode fault: upstream fault menu through the real proxy ----------
 func resolverFault(r *rng, n int, certDir string) error {
+	if err := resolverFaultMain(r, n, certDir); err != nil {
+		return err
+	}
+	time.Sleep(50 * time.Millisecond)
+	return resolverFaultCut(r, n/3+8, certDir)
+}
+
+func resolverFaultMain(r *rng, n int, certDir string) error {
 	w, err := newRWorld(certDir, false, 0, 0)
 	if err != nil {
 		return err
@@ -1183,6 +1191,65 @@ func resolverFault(r *rng, n int, certDir string) error {
 			if k == "stray_trickle" {
 				time.Sleep(5 * timeout / 2) // let the scripted datagrams run out
 			}
+		}
+	}
+	return nil
+}
+
+// second part of mode fault: the daemon as run with a response cache and a TTL cap (run.go with -cache-size and
+// -max-ttl): every upstream message also passes through the TTL rewriting and is stored.  The upstream answers with
+// a well-formed message cut short at every offset around the end of the question (and at random ones), over DoH
+// and over UDP/53; the same question is then asked again (cache hit path).  Judged by the bound alone: one reply
+// (whatever it says) within the timeout.
+func resolverFaultCut(r *rng, n int, certDir string) error {
+	w, err := newRWorld(certDir, true, 0, 30)
+	if err != nil {
+		return err
+	}
+	defer w.close()
+	timeout := 400 * time.Millisecond
+	p := proxy.Proxy{Addrs: []string{"127.0.0.1:5300"}, Upstream: w.res, Timeout: timeout, MaxInflightRequests: 32}
+	ctx, cancel := context.WithCancel(context.Background())
+	defer cancel()
+	go func() { _ = p.ListenAndServe(ctx) }()
+	time.Sleep(150 * time.Millisecond)
+	for i := 0; i < n; i++ {
+		useDNS := i%2 == 1
+		if err := w.setTransport(useDNS, false); err != nil {
+			return err
+		}
+		name := fmt.Sprintf("cut%d.example", i)
+		qc := msgSpec{id: r.intn(65536), flags: 0x0100, qs: [][]byte{question(encodeName(name), 1, 1)}}.encode()
+		body := respFor(r, qc, "cut")
+		qend := len(qc)
+		cut := qend + (i/2)%16
+		if i%7 == 6 {
+			cut = r.rng(2, len(body))
+		}
+		if cut > len(body) {
+			cut = len(body)
+		}
+		cutBody := append([]byte{}, body[:cut]...)
+		tr := "doh"
+		if useDNS {
+			tr = "dns"
+			w.dns.set(&dnsScript{datagrams: [][]byte{cutBody}})
+		} else {
+			w.doh.set(&dohScript{kind: "ok", body: cutBody})
+		}
+		for step := 0; step < 2; step++ {
+			q := append([]byte{}, qc...)
+			if step == 1 {
+				q[0] ^= 0x5a // the same question again: a stored message is adjusted and served
+			}
+			start := time.Now()
+			rs := udpExchange("127.0.0.1:5300", q, timeout+1500*time.Millisecond, 10*time.Millisecond)
+			lat := time.Since(start)
+			var rep []byte
+			if len(rs) > 0 {
+				rep = rs[0]
+			}
+			emit("fault", fmt.Sprintf("c%d.%d", i, step), tr, fmt.Sprintf("cut@q+%d", cut-qend), hx(q), "any", hx(cutBody), "=>", itoa(len(rs)), hxo(rep), fmt.Sprint(lat.Milliseconds()), fmt.Sprint(timeout.Milliseconds()))
 		}
 	}
 	return nil
